@@ -16,7 +16,7 @@ static Weights profile_weights(const std::string &prop) {
     Weights w;
     auto &t = w.top; auto &s = w.script;
     // base mix
-    t = {{P::O_CTX_REG, 0.5}, {P::O_CTX_DEREG, 0.7}, {P::O_CTX_FINALIZE, 0.2}, {P::O_QUIT, 3}, {P::O_DISPATCH, 18}, {P::O_DRAIN, 5}, {P::O_CTX_PROBE, 1},
+    t = {{P::O_CTX_REG, 0.5}, {P::O_CTX_DEREG, 0.7}, {P::O_CTX_FINALIZE, 0.2}, {P::O_QUIT, 3}, {P::O_DISPATCH, 18}, {P::O_DRAIN, 5}, {P::O_CTX_PROBE, 1}, {P::O_LOOP, 2.5},
          {P::O_REG, 4}, {P::O_DEREG, 3}, {P::O_START, 6}, {P::O_PAUSE, 4}, {P::O_RESUME, 4}, {P::O_STOP, 3}, {P::O_PILL, 1.5},
          {P::O_SUB, 8}, {P::O_UNSUB, 2.5}, {P::O_TELL, 9}, {P::O_PUB, 9}, {P::O_BCAST, 3}, {P::O_FLOOD, 0.05},
          {P::O_BECOME, 2}, {P::O_UNBECOME, 2}, {P::O_UNSTASH, 2}, {P::O_BATCH_SIZE, 1.5}, {P::O_BATCH_TIMEOUT, 0.2},
@@ -27,6 +27,7 @@ static Weights profile_weights(const std::string &prop) {
          {P::O_BATCH_SIZE, 0.7}, {P::O_REF_EVT, 0.8}, {P::O_DROP_EVT, 0.4}, {P::O_FD_REG, 0.5}, {P::O_FD_DEREG, 0.3}, {P::O_FD_WRITE, 0.5}, {P::O_ERRNO, 0.5},
          {P::O_CTX_DEREG, 0.2}, {P::O_CTX_FINALIZE, 0.05}, {P::O_SET_TICK, 0.05}};
     auto scale = [&](std::map<int, double> &m, std::initializer_list<int> codes, double f) { for (int c : codes) if (m.count(c)) m[c] *= f; else m[c] = f; };
+    if (prop == "C03" || prop == "C08" || prop == "C02") t[P::O_LOOP] = 3;
     if (prop == "C01") { scale(t, {P::O_START, P::O_PAUSE, P::O_RESUME, P::O_STOP, P::O_DEREG, P::O_REG}, 2.0); scale(s, {P::O_START, P::O_PAUSE, P::O_RESUME, P::O_STOP, P::O_DEREG}, 2.0); scale(t, {P::O_FD_REG, P::O_FD_WRITE, P::O_TMR_REG, P::O_FLOOD, P::O_BATCH_TIMEOUT}, 0.3); }
     else if (prop == "C02") { scale(t, {P::O_SUB, P::O_TELL, P::O_PUB, P::O_BCAST}, 1.6); t[P::O_FLOOD] = 0.12; }
     else if (prop == "C08") { scale(t, {P::O_TELL, P::O_PUB, P::O_BCAST, P::O_PILL, P::O_BATCH_SIZE, P::O_QUIT}, 1.8); scale(s, {P::O_STASH, P::O_UNSTASH}, 0.2); }
@@ -61,6 +62,7 @@ static rc::Gen<Op> gen_op_from(const std::map<int, double> &w, int nmods, const 
         Gen<long> ga = gen::just(0L), gb = gen::just(0L);
         switch (code) {
         case P::O_CTX_REG: ga = gens::range<long>(0, 8); break;
+        case P::O_LOOP: ga = gens::weighted_values<long>({{2, 0}, {2, 9}, {1, 200}}); break;
         case P::O_QUIT: ga = gens::weighted_values<long>({{2, 0}, {2, 7}, {1, 42}, {1, 255}, {1, 4}, {1, 11}}); break;
         case P::O_DISPATCH: ga = gens::weighted_values<long>({{5, 1}, {3, 2}, {2, 4}, {1, 12}}); break;
         case P::O_SET_TICK: ga = gens::weighted_values<long>({{1, 0}, {2, 2}, {2, 5}, {1, 10}}); break;
@@ -112,10 +114,14 @@ static rc::Gen<std::vector<Op>> gen_phrase(const Weights &w, int nmods, const st
         return v; });
     auto loopcycle = gen::map(gen::tuple(gens::weighted_values<long>({{2, 0}, {2, 7}, {1, 255}}), gens::range<long>(1, 3)), [](std::tuple<long, long> t) {
         return std::vector<Op>{mkop(P::O_QUIT, 0, 0, std::get<0>(t)), mkop(P::O_DISPATCH, 0, 0, 1), mkop(P::O_DISPATCH, 0, 0, std::get<1>(t))}; });
-    auto become_cycle = gen::map(gen::tuple(slot, slot, gens::range<long>(0, 4), gens::range<long>(0, 3)), [](std::tuple<int, int, long, long> t) {
+    auto become_cycle = gen::map(gen::tuple(slot, slot, gens::range<long>(0, 4), gens::range<long>(0, 5)), [](std::tuple<int, int, long, long> t) {
         int s = std::get<0>(t), f = std::get<1>(t);
         std::vector<Op> v{mkop(P::O_BECOME, s, 0, std::get<2>(t)), mkop(P::O_TELL, f, s), mkop(P::O_DISPATCH, 0, 0, 1)};
-        if (std::get<3>(t) == 0) v.push_back(mkop(P::O_UNBECOME, s)); else if (std::get<3>(t) == 1) { v.push_back(mkop(P::O_STOP, s)); v.push_back(mkop(P::O_START, s)); } else v.push_back(mkop(P::O_BECOME, s, 0, std::get<2>(t) + 1));
+        if (std::get<3>(t) == 0) v.push_back(mkop(P::O_UNBECOME, s));
+        else if (std::get<3>(t) == 1) { v.push_back(mkop(P::O_STOP, s)); v.push_back(mkop(P::O_START, s)); }
+        else if (std::get<3>(t) == 3) { v.push_back(mkop(P::O_PILL, f, s)); v.push_back(mkop(P::O_DISPATCH, 0, 0, 2)); v.push_back(mkop(P::O_START, s)); } // every way of stopping resets the stack
+        else if (std::get<3>(t) == 4) { v.push_back(mkop(P::O_PAUSE, s)); v.push_back(mkop(P::O_STOP, s)); v.push_back(mkop(P::O_START, s)); }
+        else v.push_back(mkop(P::O_BECOME, s, 0, std::get<2>(t) + 1));
         v.push_back(mkop(P::O_TELL, f, s)); v.push_back(mkop(P::O_DISPATCH, 0, 0, 1));
         return v; });
     auto stash_cycle = gen::map(gen::tuple(slot, slot, gens::range<long>(1, 5), gens::weighted_values<long>({{3, 1}, {3, 2}, {2, 3}, {1, 4}, {1, 6}, {2, 0}})), [](std::tuple<int, int, long, long> t) {
